@@ -1058,11 +1058,9 @@ func Gen(r *vh.Rng, wide bool) Scenario {
 			sc.BadStreamAfter = 1 + r.Intn(20)
 		}
 	}
-	// a faulty Close only where the driver has no reason to dial again: a connection that finishes connecting after its
-	// pool was closed is closed under the pool's lock (known finding KF-C06-1, class cfk of the close-fault tier)
-	if sc.ResetAfter > 0 || sc.BadStreamAfter > 0 || sc.TimeoutLimit > 0 {
-		sc.CloseFault = false
-	}
+	// (until the repair of KF-C06-1 a faulty Close was drawn only where the driver has no reason to dial again: a
+	// connection that finished connecting after its pool was closed was closed under the pool's lock. Since the repair
+	// resets / a frame on stream 0 / TimeoutLimit run over faulty transports too.)
 	// a response for a "never-used" id needs an id the allocator cannot reach in this run: with the 127 ids
 	// of protocol 2 only while few requests are outstanding at any time
 	if sc.Proto <= 2 && sc.Callers*sc.PerCaller > 40 {
@@ -1081,6 +1079,8 @@ func Main(wide bool) {
 			w := strings.Fields(l)
 			if len(w) > 0 && (w[0] == "rx" || w[0] == "rxk" || w[0] == "rxo" || w[0] == "rd" || w[0] == "rdo") {
 				fmt.Println(RunRx(l)) // executed on the real receive loop
+			} else if len(w) > 0 && w[0] == "dr" {
+				fmt.Println(RunOwn(l)) // executed on a real Conn: own requests next to user requests, late Write returns
 			} else if len(w) > 0 && w[0] == "jr" {
 				fmt.Println(RunJourney(l)) // executed on a real Conn with real callers over a scripted transport
 			} else if len(w) > 0 && (w[0] == "cf" || w[0] == "cfk") {
@@ -1124,6 +1124,35 @@ func Main(wide bool) {
 			os.WriteFile(path+"/fatal.txt", []byte("receive loop blocked on a scripted socket\n"+gocql.VerifLastHangDump), 0o644)
 		}
 	}
+	// the connection's own requests (heartbeat, USE, PREPARE, REGISTER) next to user requests; Write returning late
+	nown := 0
+	if !wide {
+		ro := vh.NewRng(vh.EnvSeed() ^ 0x6f776e72)
+		nf, nh := 500, 40
+		if tier == "thorough" {
+			nf, nh = 15000, 400
+		}
+		for i := 0; i < nf; i++ {
+			line, cls := GenOwn(ro, false)
+			out.Case("reset 128", "ok", "reset", false)
+			out.Case(line, RunOwn(line), cls, true)
+			nown++
+		}
+		var lines, classes []string
+		for i := 0; i < nh; i++ {
+			line, cls := GenOwn(ro, true)
+			lines = append(lines, line)
+			classes = append(classes, cls)
+		}
+		for i, a := range RunOwnBatch(lines, 40) {
+			out.Case("reset 128", "ok", "reset", false)
+			out.Case(lines[i], a, classes[i], true)
+			nown++
+		}
+		if ownHung {
+			os.WriteFile(path+"/fatal.txt", []byte(OwnHangDump), 0o644)
+		}
+	}
 	// the journey of a response through the real receive loop with real callers, event-ordered (C06)
 	njr := 0
 	if wide {
@@ -1160,10 +1189,11 @@ func Main(wide bool) {
 			os.WriteFile(path+"/fatal.txt", []byte(CfHangDump), 0o644)
 		}
 	}
-	if jrHung || cfHung {
+	if jrHung || cfHung || ownHung {
 		runs = 0 // one confirmed hang is the verdict; the goroutines of that run are still around
 	}
 	nreq := 0
+	setupFails := 0
 	kinds := map[string]int{}
 	shape := map[string]int{}
 	var odd []string
@@ -1176,6 +1206,13 @@ func Main(wide bool) {
 			out.Case(fmt.Sprintf("calls %d", -1), "hang-or-fatal:"+strings.SplitN(res.Fatal, "\n", 2)[0], "fatal", true)
 			if strings.Contains(res.Fatal, "hang") {
 				break // one confirmed hang (45 s of watchdog) is the verdict; the goroutines of that run are still around
+			}
+			// a Session that can not be set up three times over (each attempt retried inside Run, each costing connect
+			// time-outs) is the verdict too: going on would only run into the time limit of the check and lose the cases
+			// recorded so far
+			setupFails++
+			if setupFails >= 3 {
+				break
 			}
 			continue
 		}
@@ -1197,5 +1234,5 @@ func Main(wide bool) {
 	if len(odd) > 0 {
 		os.WriteFile(path+"/odd_errors.txt", []byte(strings.Join(odd, "\n")+"\n"), 0o644)
 	}
-	out.Close(map[string]interface{}{"scenarios": runs, "requests_observed": nreq, "scripted_socket_cases": nrx, "journey_cases": njr, "close_fault_cases": ncf, "answer_kinds": kinds, "write_shapes": shape})
+	out.Close(map[string]interface{}{"scenarios": runs, "requests_observed": nreq, "scripted_socket_cases": nrx, "own_request_cases": nown, "journey_cases": njr, "close_fault_cases": ncf, "answer_kinds": kinds, "write_shapes": shape})
 }
